@@ -124,6 +124,7 @@ FUNCS = {
                      ('peer_legal_monotone', 'implies(not old(ghost.peer_legal), not ghost.peer_legal)', [])])},
         modifies=SEND_MODS + RXQ + ITEM + FILES + MCLOSE_MODS + RX_GHOST + ['ghost.signals', 'ghost.rx_live'],
         ensures=[
+            ('keepalive_kept_unless_sent', 'ka_kept(self)', ['C14']),
             ('ack_sent', 'ghost.trace == old(ghost.trace) + [last(ghost.trace)] and last(ghost.trace).kind == EV_ACK and '
                          'last(ghost.trace).xid == transfer_id and last(ghost.trace).flags == flags and '
                          'last(ghost.trace).dlen == length(old(rx_buf_after(self, flags, data)))', ['C01', 'C04']),
